@@ -117,7 +117,10 @@ func GenPhysical(t *rapid.T, d *Deck) {
 		s := &d.Slides[i]
 		p := fmt.Sprintf("ppt/slides/slide%d.xml", nums[i])
 		if style == "renamed" {
-			switch rapid.IntRange(0, 4).Draw(t, "partForm") {
+			switch rapid.IntRange(0, 5).Draw(t, "partForm") {
+			case 5:
+				// a directory named ppt below ppt/: the relative target "ppt/deck/s3.xml" names /ppt/ppt/deck/s3.xml
+				p = fmt.Sprintf("ppt/ppt/deck/s%d.xml", nums[i])
 			case 4:
 				p = fmt.Sprintf("ppt/deck/intro%d.sld", nums[i]) // not an .xml name: typed by its Override entry
 			case 0:
@@ -136,6 +139,14 @@ func GenPhysical(t *rapid.T, d *Deck) {
 	}
 	for i := range d.Decoys {
 		d.Decoys[i].Part = fmt.Sprintf("ppt/slides/slide%d.xml", nums[n+i])
+		// an unreferenced part where a reader that takes "ppt/…" for a full part name would look
+		for _, s := range d.Slides {
+			if alt := strings.TrimPrefix(s.Part, "ppt/"); strings.HasPrefix(alt, "ppt/") && !used[alt] {
+				d.Decoys[i].Part = alt
+				used[alt] = true
+				break
+			}
+		}
 	}
 	// notes numbering is independent of slide numbering
 	var withNotes []int
